@@ -77,6 +77,7 @@ pub open spec fn first_err(q: Seq<Job>, n: int) -> int
 { if n <= 0 { 0 } else { let f = first_err(q, n - 1); if f < n - 1 { f } else if ok_at(q, n - 1) { n } else { n - 1 } } }
 
 //@extract fn bigtools/src/bbi/bbiwrite.rs write_data
+//@rule R16
 //@rule R1
 //@rule R3
 //@rule R5
@@ -168,6 +169,7 @@ pub proof fn lemma_first_err_step(q: Seq<Job>, i: int, n: int)
 
 // ---- offset rebasing closures (R10): `section.offset = current_offset; current_offset += section.size` ----
 //@extract closure bigtools/src/bbi/bbiwrite.rs write_mid sections_iter
+//@rule R16
 //@header fn rebase_write_mid(current_offset: &mut u64, section: Section, pre_data: u64) -> Section
 //@rule R5
 //@sub /\bcurrent_offset\b(?!:)/ => (*current_offset) min=0
@@ -188,6 +190,7 @@ pub proof fn lemma_first_err_step(q: Seq<Job>, i: int, n: int)
 //@end
 
 //@extract closure bigtools/src/bbi/bbiwrite.rs write_zooms sections_iter
+//@rule R16
 //@header fn rebase_write_zooms(current_offset: &mut u64, section: Section, zoom_data_offset: u64) -> Section
 //@rule R5
 //@sub /\bcurrent_offset\b(?!:)/ => (*current_offset) min=0
@@ -208,6 +211,7 @@ pub proof fn lemma_first_err_step(q: Seq<Job>, i: int, n: int)
 //@end
 
 //@extract closure bigtools/src/bbi/bbiwrite.rs write_zoom_vals sections_iter
+//@rule R16
 //@header fn rebase_zoom_vals_first(current_offset: &mut u64, section: Section, first_zoom_data_offset: u64) -> Section
 //@rule R5
 //@sub /\bcurrent_offset\b(?!:)/ => (*current_offset) min=0
@@ -228,6 +232,7 @@ pub proof fn lemma_first_err_step(q: Seq<Job>, i: int, n: int)
 //@end
 
 //@extract closure bigtools/src/bbi/bbiwrite.rs write_zoom_vals sections_iter#2
+//@rule R16
 //@header fn rebase_zoom_vals_later(current_offset: &mut u64, section: Section, zoom_data_offset: u64) -> Section
 //@rule R5
 //@sub /\bcurrent_offset\b(?!:)/ => (*current_offset) min=0
